@@ -13,7 +13,7 @@ CONSTANTS T1, T2, T3, A1, A2,       \* the members of Targets / LanIPs by name
           WithOffer,                \* include SetDHCPv4IPOffer calls
           RecvOps, RecvSI, RecvTI   \* received packets: operations, sender addresses, target addresses
 VARIABLES bad, depth, hist
-mcvars == <<hunt, loops, closed, offer, hostOf, out, ev, refHunt, refClosed, refOffer, rl, poisoned, pre, bad, depth, hist>>
+mcvars == <<hunt, loops, closed, offer, hostOf, pend, out, ev, refHunt, refClosed, refOffer, rl, poisoned, pre, bad, depth, hist>>
 
 \* t1 and t2 share address a1 (DESIGN #23); t1 may also be started under a second address
 StartChoices == {<<T1, A1>>, <<T2, A1>>, <<T3, A2>>, <<T1, A2>>, <<NilMAC, A1>>, <<T3, V6>>, <<T2, NoIP>>}
@@ -28,7 +28,16 @@ MCInit == Init /\ bad = "none" /\ depth = 0 /\ hist = <<>>
 MCNext == (~Bounded \/ depth < MaxDepth) /\
   \/ \E c \in StartChoices :
         /\ (c[1] # NilMAC /\ c[2] \in IP4 /\ ~Hunted(c[1])) => Len(loops) < MaxLoops
+        /\ ~RacyStart      \* in the deviation variant every StartHunt is scheck followed by sinsert
         /\ StartHunt(c[1], c[2]) /\ Step([a |-> "start", mac |-> c[1], ip |-> c[2]])
+  \/ \E c \in {<<T1, A1>>, <<T2, A1>>, <<NilMAC, A1>>} :
+        /\ ~RacyStart
+        /\ (c[1] # NilMAC /\ ~Hunted(c[1])) => Len(loops) < MaxLoops
+        /\ ConcStart(c[1], c[2], 4) /\ Step([a |-> "cstart", mac |-> c[1], ip |-> c[2], n |-> 4])
+  \/ \E c \in {<<T1, A1>>, <<T2, A1>>} :
+        /\ Len(loops) + Len(pend[T1]) + Len(pend[T2]) < MaxLoops
+        /\ StartCheck(c[1], c[2]) /\ Step([a |-> "scheck", mac |-> c[1], ip |-> c[2]])
+  \/ \E m \in Targets : StartInsert(m) /\ Step([a |-> "sinsert", mac |-> m])
   \/ \E m \in Targets : StopHunt(m) /\ Step([a |-> "stop", mac |-> m])
   \/ ~closed /\ Close /\ Step([a |-> "close"])
   \/ WithOffer /\ \E c \in OfferChoices : offer[c[1]] # c[2] /\ Offer(c[1], c[2]) /\ Step([a |-> "offer", mac |-> c[1], ip |-> c[2]])
@@ -38,8 +47,8 @@ MCNext == (~Bounded \/ depth < MaxDepth) /\
         \/ ~closed /\ Tick(l) /\ Step([a |-> "tick", l |-> l])
         \/ WakeOnClose(l) /\ Step([a |-> "wake", l |-> l])
   \/ /\ RecvOps # {}
-     /\ \E op \in RecvOps, sm \in Targets, si \in RecvSI, ti \in RecvTI :
-           Recv(op, sm, si, ti) /\ Step([a |-> "recv", op |-> op, sm |-> sm, si |-> si, ti |-> ti])
+     /\ \E op \in RecvOps, es \in Targets, sm \in Targets, si \in RecvSI, ti \in RecvTI :
+           Recv(op, es, sm, si, ti) /\ Step([a |-> "recv", op |-> op, es |-> es, sm |-> sm, si |-> si, ti |-> ti])
 
 MCSpec == MCInit /\ [][MCNext]_mcvars
 
@@ -64,7 +73,7 @@ ExportBad == (Bounded /\ bad # "none" /\ ev.kind # "init") => PrintT(ToJson([bad
 
 NotBad == bad = "none"     \* CONSTRAINT of the counterexample-export configuration: do not expand beyond a failure
 
-View == <<hunt, loops, closed, offer, hostOf, refHunt, refClosed, refOffer, rl, poisoned, bad, depth>>
+View == <<hunt, loops, closed, offer, hostOf, pend, refHunt, refClosed, refOffer, rl, poisoned, bad, depth>>
 
 -----------------------------------------------------------------------------
 (* fairness configuration: after StopHunt / Close every loop instance ends *)
